@@ -35,6 +35,15 @@ CHECKS = {
              'check delimiter-safety, sequence membership of every escape char, idempotence, the fixed point on well-formed '
              'text, and count preservation of datatype-object assignment inside messages.',
         note='trusts er7ref.well_formed/ref_escape; CR not in the alphabet'),
+    'C07': dict(
+        technique='runtime monitoring: reference tokenizer + descendant walk over seeded random delimiter sets (builder and parser paths)',
+        category='exploration', design='DESIGN.md §4 C07',
+        text='For seeded random sets of 5/6 distinct punctuation delimiters and every version, a message with a known shape '
+             '(2 repetitions x components x 2 sub-components) is built through Message(...) and parsed from text; the tokenizer '
+             'run with that set must reproduce the shape, every separator must come from the set, MSH-1/2 must spell it, '
+             'encoding_chars must read back equal on every descendant, re-parsing must give the same set and encoding, '
+             'truncation is emitted iff supplied, invalid sets must raise InvalidEncodingChars.',
+        note='pool = punctuation minus . and _'),
     'C09': dict(
         technique='runtime monitoring: lock-step execution against an ordered-list reference model over operation histories',
         category='exploration', design='DESIGN.md §4 C09',
@@ -92,6 +101,15 @@ CHECKS = {
              '(both levels, find_groups on/off) and get_message_type; whatever parses must encode and validate to a report. '
              'Leaks are keyed by (stage, exception type, innermost hl7apy function).',
         note='allowed: result, HL7apyException subclass, ValueError under STRICT'),
+    'C17': dict(
+        technique='runtime monitoring: differential execution of an explicit-argument call corpus across default configurations',
+        category='exploration', design='DESIGN.md §4 C17',
+        text='About 3,000 parser / constructor / encoder / validator / factory calls that name version, level and encoding '
+             'characters (all versions, both levels, datatypes whose base/complex status differs between versions) are run under '
+             'the baseline and under 12 default versions x 2 levels x 2 default delimiter sets; outcomes must be identical, and '
+             'elements created beforehand are re-observed after every change of the defaults. Consultations of the '
+             'get_default_* bindings are counted as diagnostic evidence.',
+        note='parentless to_er7() always receives explicit characters; text assignment on parentless elements is delimiter-free'),
 }
 
 ORDER = sorted(CHECKS)
